@@ -15,6 +15,11 @@ CLAIMS = {
          "trigger_events returns Ok (no panic outcome, fuel never exhausted), re-establishes the invariant and enters transition at most "
          "(events+1)(machines+1)+2*machines times; proved for any clock whose Duration add cannot overflow (the virtual clock). "
          "The std::time clock overflow (F6) is a recorded known finding exercised by a separate probe.", "DESIGN.md section 4, C01"),
+ "C02": ("Theorem C02_budget: for every validated configuration, every history (earlier calls may be batches), every event, time value and random tape: "
+         "a SendPadding returned by a single-event call for machine i implies, with the NormalSent/PaddingSent reports recounted from the history, "
+         "own paddings < allowed_padding_packets, or machine fraction below max_padding_frac (if set) and global fraction below the framework limit (if set), "
+         "as exact rational inequalities against the exact value of the f64 limits (Flocq proof of the division/rounding step; guard: < 2^53 packets). "
+         "C02_accounting: the counters are a function of the reported events only.", "DESIGN.md section 4, C02"),
  "C04": ("Theorems C04_contract, C04_one_day, C04_end_absorbing(_call): returned actions name pairwise distinct existing machines, each has the "
          "kind and flags of an action of that machine, every timeout/duration is <= 86_400_000_000 us for every oracle value (Flocq proof "
          "of the clamp, NaN/inf included), and a machine in STATE_END never acts again in any later call of any history.", "DESIGN.md section 4, C04"),
